@@ -85,7 +85,7 @@ def run_client(spec, acc):
                 await asyncio.sleep(0.05)
                 sim.conns[-1].feed(b"".join(second))
             await asyncio.sleep(2.0)
-            await sim.call("close")
+            await sim.close_guarded()
         sim, stats = simgw.run_session(kind, scenario, client_kwargs=settings)
         acc.count("client_sessions_across_a_reconnect")
         if stats["error"] or sim is None:
